@@ -29,53 +29,134 @@ ASSUMPTIONS = [
 ]
 
 
+def sources_for(prop):
+    """list of (family, group filter, property under which the counterexample is re-checked concretely)"""
+    if prop in HEVAL_PROPS or prop == 'C20':
+        return [('H-EVAL', lambda G: G['prop'] == prop, None)]
+    if prop == 'C14':
+        return [('H-ORDER', lambda G: G['prop'] == 'C14', None)]
+    if prop == 'C15':
+        # comparison-specific violations only: seen under S-rel / S-prod and not under string inequality
+        rel_only = lambda G: 'ident' not in G.get('modes', [])
+        return [('H-EVAL', lambda G: G['prop'] in ('C03', 'C04', 'C06', 'C07', 'C11', 'C16') and rel_only(G), 'group'),
+                ('H-ORDER', lambda G: G['prop'] == 'C14' and rel_only(G), 'group')]
+    return []
+
+
 def run_property(prop, tier, seed, mod, bins, dt, log):
-    if prop in HEVAL_PROPS:
-        return run_heval(prop, tier, seed, mod, bins, dt, log)
-    raise CK.Inconclusive('no check implemented for %s' % prop)
-
-
-def run_heval(prop, tier, seed, mod, bins, dt, log):
+    srcs = sources_for(prop)
+    if not srcs:
+        raise CK.Inconclusive('no check implemented for %s' % prop)
     cap = 1500 if tier == 'quick' else 6 * 3600
-    res = runall.run(tier, seed, log=sys.stderr, wall_cap=cap)
-    if res['errors']:
-        e = res['errors'][0]
-        raise CK.Inconclusive('%d universe(s) could not be executed, first %s: %s' % (len(res['errors']), e['universe'], e['error']))
-    if res['capped']:
-        raise CK.Inconclusive('exploration hit its cap in %d universe(s) (%s ...): no verdict' % (len(res['capped']), res['capped'][0]))
-    if res['states'] == 0 or res['finals'] == 0:
-        raise CK.Inconclusive('vacuous exploration: no states / no completed paths')
     known = CK.load_known()
-    out = {'family': 'H-EVAL', 'res': res, 'confirmed': [], 'known': [], 'unconfirmed': [], 'replays': 0, 'dt': dt}
+    out = {'families': {}, 'confirmed': [], 'known': [], 'unconfirmed': [], 'replays': 0, 'dt': dt}
     outdir = os.path.join(VERIF, 'out', prop)
     n = 0
-    for gk, g in sorted(res['groups'].items()):
-        if g['prop'] != prop:
-            continue
-        for exm in g['examples'][:2]:
-            sc = S.Scenario.from_json(exm['scenario'])
-            ok, why, native = CK.confirm(mod, bins, sc, prop)
-            out['replays'] += 1
-            if not ok:
-                out['unconfirmed'].append({'group': gk, 'what': exm['what'], 'why': why, 'scenario': exm['scenario']})
+    for family, flt, reprop in srcs:
+        res = runall.run(family, tier, seed, log=sys.stderr, wall_cap=cap)
+        if res['errors']:
+            e = res['errors'][0]
+            raise CK.Inconclusive('%s: %d universe(s) could not be executed, first %s: %s' % (family, len(res['errors']), e['universe'], e['error']))
+        if res['capped']:
+            raise CK.Inconclusive('%s: exploration hit its cap in %d universe(s) (%s ...): no verdict' % (family, len(res['capped']), res['capped'][0]))
+        if res['states'] == 0 or res['finals'] == 0:
+            raise CK.Inconclusive('%s: vacuous exploration: no states / no completed paths' % family)
+        out['families'][family] = res
+        for gk, g in sorted(res['groups'].items()):
+            if not flt(g):
                 continue
-            n += 1
-            path = os.path.join(outdir, 'cex-%d.json' % n)
-            json.dump({'property': prop, 'what': exm['what'], 'group': gk, 'count_in_exploration': g['count'],
-                       'scenario': exm['scenario'], 'path_condition': exm['pc'], 'native_trace': native}, open(path, 'w'), indent=1)
-            k = CK.match_known(known, prop, exm['what'], native)
-            rec = {'group': gk, 'what': exm['what'], 'replay': path, 'count': g['count']}
-            if k is not None:
-                rec['known'] = k['id']
-                out['known'].append(rec)
-            else:
-                out['confirmed'].append(rec)
-            break
+            for exm in g['examples'][:2]:
+                cprop = g['prop'] if reprop == 'group' else prop
+                if g['prop'] == 'C14':
+                    ok, why, native = confirm_pair(mod, bins, exm)
+                else:
+                    sc = S.Scenario.from_json(exm['scenario'])
+                    ok, why, native = CK.confirm(mod, bins, sc, cprop)
+                out['replays'] += 1
+                if not ok:
+                    out['unconfirmed'].append({'group': gk, 'what': exm['what'], 'why': why, 'scenario': exm['scenario']})
+                    continue
+                n += 1
+                path = os.path.join(outdir, 'cex-%d.json' % n)
+                rec_json = {'property': prop, 'what': exm['what'], 'group': gk, 'count_in_exploration': g['count'],
+                            'scenario': exm['scenario'], 'path_condition': exm.get('pc'), 'native_trace': native, 'family': family}
+                if 'scenario2' in exm:
+                    rec_json['scenario2'] = exm['scenario2']
+                json.dump(rec_json, open(path, 'w'), indent=1)
+                k = CK.match_known(known, prop, exm['what'], native)
+                rec = {'group': gk, 'what': exm['what'], 'replay': path, 'count': g['count']}
+                if k is not None:
+                    rec['known'] = k['id']
+                    out['known'].append(rec)
+                else:
+                    out['confirmed'].append(rec)
+                break
     return out
 
 
+def final_outcome(trace, classes):
+    """(states string, history dict with values mapped to their class) of a native trace"""
+    states = None
+    hist = {}
+    for l in trace:
+        f = l.split('\t')
+        if f[0] == 'E' and len(f) > 10:
+            st = [x for x in f if x.startswith('states=')]
+            if st:
+                states = st[0]
+        elif f[0] == 'H':
+            v = f[2]
+            hist[f[1]] = v if f[1].endswith('!!!') else classes.get(v, v)
+    norm = []
+    if states:
+        import re
+        for part in states[7:].split(';'):
+            norm.append(re.sub(r'FinishedSuccess\w*', 'FinishedSuccess', part))
+    return tuple(norm), hist
+
+
+def confirm_pair(mod, bins, exm):
+    """C14: both schedules replay natively exactly as predicted and their final outcomes differ on the real crate"""
+    sc1 = S.Scenario.from_json(exm['scenario'])
+    sc2 = S.Scenario.from_json(exm['scenario2'])
+    natives = []
+    for sc in (sc1, sc2):
+        a = S.run_mirsym(mod, sc)
+        b = S.run_native(bins[0], [sc]).get(sc.name, [])
+        d = S.diff_traces(a, b)
+        if d is not None:
+            return False, 'model/native trace mismatch at line %d:\n  mirsym: %s\n  native: %s' % d, b
+        natives.append(b)
+    cl = dict(sc1.classes) if sc1.strategy != 'ident' else {}
+    o1 = final_outcome(natives[0], cl)
+    o2 = final_outcome(natives[1], cl)
+    if o1 == o2:
+        return False, 'the two schedules have the same outcome on the real crate', natives[0] + natives[1]
+    return True, 'reproduced', natives[0] + ['--- second schedule / declaration order'] + natives[1]
+
+
+def merged(out):
+    fams = out['families']
+    res = {'states': 0, 'transitions': 0, 'events': 0, 'finals': 0, 'forks': 0, 'obligations': 0, 'discharged': 0, 'by_eval': 0,
+           'mir_blocks': 0, 'universes': 0, 'samples': [], 'per_family': {}, 'solver': {'queries': 0, 'sat': 0, 'unsat': 0, 'solver_s': 0.0},
+           'wall_s': 0.0, 'mon_stats': {}}
+    for f, r in fams.items():
+        for k in ('states', 'transitions', 'events', 'finals', 'forks', 'obligations', 'discharged', 'by_eval', 'mir_blocks', 'universes'):
+            res[k] += r.get(k, 0)
+        for k in ('queries', 'sat', 'unsat', 'solver_s'):
+            res['solver'][k] += r['solver'][k]
+        res['samples'].extend(r['samples'][:3])
+        res['wall_s'] += r.get('wall_s', 0.0)
+        res['mon_stats'].update(r.get('mon_stats', {}))
+        res['per_family'][f] = {'universes': r['universes'], 'states': r['states'], 'transitions': r['transitions'],
+                                'completed_paths': r['finals'], 'obligations': r['obligations'], 'per_mode': r.get('per_mode'),
+                                'solver': r['solver'], 'exploration_wall_s': r.get('wall_s')}
+    return res
+
+
 def finish(prop, tier, seed, out, outdir):
-    res = out['res']
+    res = merged(out)
+    out['res'] = res
     rc = 0
     if out['unconfirmed']:
         u = out['unconfirmed'][0]
@@ -109,13 +190,13 @@ def write_evidence(prop, tier, seed, out):
         'coverage': {
             'states': res['states'], 'transitions': res['transitions'],
             'traces_validated_against_impl': dt['scenarios'] + out['replays'],
-            'samples': res['samples'][:4] or [{'note': 'no completed path sampled'}],
+            'samples': res['samples'][:4] or [{'note': 'no completed path sampled in this family; see per_family'}],
             'universes': res['universes'], 'events_executed': res['events'], 'completed_paths': res['finals'],
             'intra_event_forks': res['forks'],
             'obligations': res['obligations'], 'discharged': res['discharged'],
             'obligations_decided_by_pc_literal_evaluation': res['by_eval'],
             'solver': res['solver'], 'mir_blocks_executed': res['mir_blocks'],
-            'per_mode': res['per_mode'],
+            'per_family': res['per_family'], 'monitor_stats': res['mon_stats'],
             'bounds': BOUNDS_HEVAL[tier],
             'outside_the_claim': 'graphs with more than 3 jobs except the curated 4-job shapes; chains of evaluations other than through '
                                  'the one-step history invariant; hash iteration order; the python driver',
